@@ -129,6 +129,17 @@ def main(inp, outp):
             orb = Tle(TLE).orbit()
             orb.date = lab(orb.date, le)
             return "text", str(Tle.from_orbit(orb))
+        if op in ("tle-newyear", "sgp4-newyear"):
+            # an epoch a few seconds before the UTC new year: in TAI / TT / GPS its calendar date is already in the next year
+            # (2015-12-31T23:59:50 UTC; no leap second at the end of 2015)
+            l1 = "1 25544U 98067A   15365.99988426  .00001524  00000-0  30197-4 0  999"
+            l1 += str(Tle._checksum(l1))
+            orb = Tle("\n".join([lines[0], l1, lines[2]])).orbit()
+            utc_epoch = orb.date
+            orb.date = lab(orb.date, le)
+            if op == "tle-newyear":
+                return "text", str(Tle.from_orbit(orb))
+            return "state", np.asarray(orb.propagate(lab(utc_epoch + timedelta(hours=5, seconds=11.5), la)), float)
         if op in ("opm", "oem"):
             o = kep_orbit(le, "Kepler").copy(form="cartesian")
             if op == "opm":
@@ -148,6 +159,8 @@ def main(inp, outp):
     kinds = set()
     for case in job["cases"]:
         op, la, le = case["op"], case["la"], case["le"]
+        if op.endswith("-newyear") and ({la, le} & {"UT1", "TDB"}):
+            continue        # at a day boundary UT1 / TDB readings are outside the quantifier (per-day tables, microsecond roundings)
         data = {"op": op, "arg_label": la, "epoch_label": le, "how": "harness/scale_replay.py: same instants, Dates relabelled with change_scale"}
         try:
             if op not in base:
@@ -164,7 +177,7 @@ def main(inp, outp):
             vmag = max(np.linalg.norm(ref[3:6]), 1.0)
             # dates built in different scales differ by rounding at the microsecond level; operations going through float
             # Julian dates (frame chains, Sun/Moon series) resolve time to ~40 us only (the library's time resolution)
-            tol = vmag * (50e-6 if op in ("sun", "moon", "frame", "sgp4", "sgp4beta") else 3e-6) + 1e-6
+            tol = vmag * (50e-6 if op in ("sun", "moon", "frame", "sgp4", "sgp4beta", "sgp4-newyear") else 3e-6) + 1e-6
             err = float(np.abs(got - ref).max())
             clause(f"{op}: same physical result whatever the labels (|v| x 3 us)", err <= tol, f"scale/{op}",
                    f"{op} la={la} le={le}: differs from the UTC/UTC result by {err:.6g} (tolerance {tol:.3g})", data)
